@@ -27,7 +27,8 @@ def configs(tier):
     def bounds(p):
         # two full-duplex objects make the largest graph: one operation less in the quick tier
         small = q and p == ["sock", "sock"]
-        return dict(MaxOps=(4 if small else 5) if q else 6, MaxCmds=(8 if small else 9) if q else 11)
+        big = p in (['sock', 'sock'], ['pkt', 'sock'], ['pkt', 'mcp'], ['sock', 'lst'])
+        return dict(MaxOps=(4 if small else 5) if q else (5 if big else 6), MaxCmds=(8 if small else 9) if q else (10 if big else 11))
     return [dict(name="chains over %s+%s" % tuple(p), sample=n,
                  over=dict(Class="chain", Kinds=p, Cmds={"read", "write"}, Envs={"send"}, MaxData=3,
                            HBudget=1, MaxDrain=3, **bounds(p)))
